@@ -1,1 +1,4 @@
 import ThriftVerif.Props.C05
+#print axioms Props.C05.tables_match_spec
+#print axioms Props.C05.typedef_fixpoint_complete
+#print axioms Props.C05.resolve_category
